@@ -1,8 +1,13 @@
 #!/bin/bash
-# Re-run the property's own quick check against every stored seeded change (sequentially; evidence files of /verif are
-# overwritten by these runs, so re-run the checks on /repo afterwards).   usage: vp/tools/seedsweep.sh [id-glob]
+# Re-run, against every stored seeded change, its property's own quick check and every check recorded as detecting it
+# (sequentially, scratch worktrees under /tmp, evidence of /verif untouched).   usage: vp/tools/seedsweep.sh [id-glob]
 cd "$(dirname "$0")/../.."
 for d in seeded/${1:-*}/; do
   id=$(basename "$d")
-  /venv/bin/python -m vp.tools.seedtest --recheck "$id" 2>&1 | tail -1 | cut -c1-200
+  checks=$(/venv/bin/python -c "
+import json,sys
+m=json.load(open('seeded/$id/meta.json'))
+c=[m['property']]+[x.split(':')[0] for x in m.get('detected_by',[]) if x.endswith(':quick')]
+print(' '.join(dict.fromkeys(c)))")
+  /venv/bin/python -m vp.tools.seedtest --fast --recheck "$id" $checks 2>&1 | tail -1 | cut -c1-200
 done
